@@ -48,6 +48,8 @@ type c10Listener struct {
 	errors         []string
 	acks           atomic.Int64
 	slowEvery      int
+	blockAt        int           // > 0: the callback of the blockAt-th event blocks until release is closed
+	release        chan struct{} // (a burst piles up behind one busy callback)
 	boundAtConnect bool
 	addr           string
 }
@@ -72,6 +74,12 @@ func (l *c10Listener) OnEvent(s *types.Status) {
 	l.events = append(l.events, d)
 	n := len(l.events)
 	l.mu.Unlock()
+	if l.blockAt > 0 && n == l.blockAt {
+		select {
+		case <-l.release:
+		case <-time.After(5 * time.Second):
+		}
+	}
 	if l.slowEvery > 0 && n%l.slowEvery == 0 {
 		time.Sleep(3 * time.Millisecond) // a slow consumer: datagrams pile up behind this callback
 	}
@@ -258,6 +266,14 @@ func c10(c *Ctx) {
 		if cycle%3 == 1 {
 			lst.slowEvery = 5 + r.Pick(10)
 		}
+		// every fifth cycle: one callback stays busy while a burst of 30..180 datagrams arrives behind it
+		window := int64(24)
+		if cycle%5 == 2 {
+			lst.blockAt, lst.release = 1+r.Pick(20), make(chan struct{})
+			window = int64(30 + r.Pick(150))
+			c.Res.Count("cycles:burst-behind-a-busy-callback", 1)
+			c.Res.Max("max:burst-behind-a-busy-callback", window)
+		}
 		q := make(chan os.Signal, 1)
 		done := make(chan error, 1)
 		dropsBefore := rcvbufErrors()
@@ -306,7 +322,7 @@ func c10(c *Ctx) {
 				}
 				defer conn.Close()
 				for i, d := range streams[s] {
-					for sentTotal.Load()-lst.acks.Load() >= 24 {
+					for sentTotal.Load()-lst.acks.Load() >= window {
 						select {
 						case <-stopSending:
 							return
@@ -329,6 +345,22 @@ func c10(c *Ctx) {
 					sentUpTo[s] = i + 1
 				}
 			}(s)
+		}
+		if lst.blockAt > 0 {
+			// release the busy callback once the burst is in the socket buffer (or the senders have nothing left)
+			go func() {
+				for k := 0; k < 2000; k++ {
+					if sentTotal.Load()-lst.acks.Load() >= window-1 {
+						break
+					}
+					time.Sleep(time.Millisecond)
+					if k > 50 && sentTotal.Load() >= int64(nSenders*perSender) {
+						break
+					}
+				}
+				time.Sleep(2 * time.Millisecond)
+				close(lst.release)
+			}()
 		}
 		if stopMid {
 			time.Sleep(time.Duration(2+r.Pick(10)) * time.Millisecond)
